@@ -1,6 +1,7 @@
 -- REGENERATED on every run by /verif/check from the compiled /repo tree. Do not edit.
 namespace SdnsVerif.Gen.C17
 
+def chain_clientonly : List Bool := [false, true, true, true, true, true, false, true, false, false, true, false, false, false, false, false, false, false, false]
 def chain_order : List String := ["recovery", "metrics", "dnstap", "accesslist", "ratelimit", "reflex", "edns", "accesslog", "chaos", "hostsfile", "views", "blocklist", "as112", "kubernetes", "dns64", "cache", "failover", "resolver", "forwarder"]
 def clientonly_accesslist : Bool := true
 def clientonly_ratelimit : Bool := true
